@@ -25,6 +25,7 @@ partial def parseVal (j : Json) : Except String Val := do
   | .arr #[.str "nan"] => pure .nan
   | .arr #[.str "inf", .bool neg] => pure (.inf neg)
   | .arr #[.str "s", .str s] => pure (.str s)
+  | .arr #[.str "r", .str n, st] => do pure (.reward n (← parseVal st))
   | .arr #[.str "l", .arr xs] => do pure (.list (← xs.toList.mapM parseVal))
   | .arr #[.str "t", .arr xs] => do pure (.tup (← xs.toList.mapM parseVal))
   | .arr #[.str "d", .arr kvs] => do
@@ -60,10 +61,15 @@ partial def valToJson : Val → Json
   | .str s => Json.arr #[Json.str "s", Json.str s]
   | .list xs => Json.arr #[Json.str "l", Json.arr (xs.map valToJson).toArray]
   | .tup xs => Json.arr #[Json.str "t", Json.arr (xs.map valToJson).toArray]
+  | .reward n st => Json.arr #[Json.str "r", Json.str n, valToJson st]
   | .dict kvs => Json.arr #[Json.str "d", Json.arr (kvs.map (fun kv =>
       Json.arr #[Json.str (match kv.1 with | .str s => s | k => "<non-str " ++ k.pystr ++ ">"), valToJson kv.2])).toArray]
 
 def rowToJson (r : Row) : Json := ofList (fun (kv : String × Val) => Json.arr #[Json.str kv.1, valToJson kv.2]) r
+
+def ptableToJson (t : PTable) : Json :=
+  obj [("columns", ofList Json.str t.columns),
+       ("rows", ofList (ofList (fun (c : Option Val) => match c with | none => Json.arr #[Json.str "M"] | some v => valToJson v)) t.rows)]
 
 def errName : Err → String
   | .stopIteration => "StopIteration" | .cobaException => "CobaException"
@@ -86,12 +92,14 @@ def handle (req : Json) : Except String Json := do
   let phase1 ← if p1j.isNull then pure none else some <$> ((← arr p1j).mapM parseTx)
   let all := (phase1.getD []) ++ txs
   let rnd := round5
-  let combo (fe fr : Bool) : Json :=
+  -- `strip = true`: the log carries no `_n` (code before fixes/C07-rows-without-fields.diff)
+  let combo (fe fr strip : Bool) : Json :=
+    let st := fun (f : List Rec) => if strip then stripN f else f
     let file0 := phase1.map (fun t1 => fileAfter rnd fe info none t1)
     let file := fileAfter rnd fe info file0 txs
-    obj [("nofile", resToJson (runNoFile rnd fe fr info all)),
-         ("file", resToJson (runFile rnd fe fr info file0 txs)),
-         ("from_file", resToJson (fromFile fr file))]
+    obj [("nofile", resToJson (readLog fr (st (encode rnd fe false (.t0 info :: all))))),
+         ("file", resToJson (readLog fr (st file))),
+         ("from_file", resToJson (fromFile fr (st file)))]
   let t4s := all.filterMap (fun t => match t with | .t4 ids rows => some (ids, rows) | _ => none)
   let spec := t4s.map (fun (p : List Int × List PyDict) =>
     match p.1 with
@@ -105,7 +113,15 @@ def handle (req : Json) : Except String Json := do
     | .t2 id p => some (Json.arr #[Json.str "L", ofInt id, rowToJson (normParams rnd p)])
     | .t3 id p => some (Json.arr #[Json.str "V", ofInt id, rowToJson (normParams rnd p)])
     | _ => none)
-  pure (obj [("ff", combo false false), ("ft", combo false true), ("tf", combo true false), ("tt", combo true true),
+  let file0tt := phase1.map (fun t1 => fileAfter rnd true info none t1)
+  let padOf (strip : Bool) : Json :=
+    let f := fileAfter rnd true info file0tt txs
+    match tablesOf true (if strip then stripN f else f) with
+    | .ok ts => ofList ptableToJson ts
+    | .error e => obj [("raised", Json.str (errName e))]
+  pure (obj [("pad", padOf false), ("padS", padOf true),
+             ("ff", combo false false false), ("ft", combo false true false), ("tf", combo true false false), ("tt", combo true true false),
+             ("ffS", combo false false true), ("ftS", combo false true true), ("tfS", combo true false true), ("ttS", combo true true true),
              ("spec", Json.arr spec.toArray), ("params", Json.arr params.toArray)])
 
 end Coba.C07.Driver
